@@ -35,6 +35,49 @@ def _typ_kinds(func, var="typ"):
             kinds.add(unparse(n.comparators[0]))
     return kinds
 
+EXTRACT_PROJECTION = {"task": "w[1:]", "list": "w", "dict": "w.values()", "GraphNode": "w.dependencies", "TaskRef": "w.key"}
+
+
+def extractor_kinds(ctx, kit):
+    """Container kinds core.keys_in_tasks descends into, and what it descends into for each.
+    Also records one obligation per kind: the projection must be the one that holds the nested
+    values (a dict's *values*, a task's arguments w[1:], a node's dependencies)."""
+    ext = {}
+    for n in walk_no_nested(kit):
+        if isinstance(n, ast.If):
+            body_calls = [c for c in calls(ast.Module(body=n.body, type_ignores=[])) if isinstance(c.func, ast.Attribute) and c.func.attr in ("extend", "append") and unparse(c.func.value) == "work"]
+            if not body_calls:
+                continue
+            arg = unparse(body_calls[0].args[0])
+            tests = n.test.values if isinstance(n.test, ast.BoolOp) and isinstance(n.test.op, ast.Or) else [n.test]
+            for t in tests:
+                txt = unparse(t)
+                kind = None
+                if "typ is tuple" in txt and "callable" in txt:
+                    kind = "task"
+                elif txt == "typ is list":
+                    kind = "list"
+                elif txt == "typ is dict":
+                    kind = "dict"
+                elif "isinstance(w, GraphNode)" in txt:
+                    kind = "GraphNode"
+                elif "isinstance(w, TaskRef)" in txt:
+                    kind = "TaskRef"
+                else:
+                    kind = txt
+                ext[kind] = arg
+                want = EXTRACT_PROJECTION.get(kind)
+                if want is not None:
+                    ok = arg == want
+                    ctx.ob("SIB.extract.projection", n, f"keys_in_tasks: {kind} -> descends into {want}", ok, "" if ok else f"descends into `{arg}`: keys nested in a {kind} are not reported as dependencies (cull drops them, the converter still evaluates them)")
+    ctx.count("extractor_kinds", len(ext))
+    ctx.floor("extractor_kinds", 4, "container kinds keys_in_tasks descends into")
+    # membership test for leaves
+    leaf = [r for r in find("ret.append(w)", kit)]
+    ok = bool(leaf) and has_fact(inline_facts(kit, leaf[0][0]), "w in keys", True) is not None
+    ctx.ob("SIB.extract.leaf", kit, "a leaf is a dependency iff it is in keys", ok)
+    return ext
+
 
 def check(ctx):
     model = ctx.model
@@ -44,29 +87,7 @@ def check(ctx):
     conv = ts.func("convert_legacy_task")
 
     # ---------------- extractor kinds
-    ext = {}
-    for n in walk_no_nested(kit):
-        if isinstance(n, ast.If):
-            t = n.test
-            txt = unparse(t)
-            body_calls = [c for c in calls(ast.Module(body=n.body, type_ignores=[])) if isinstance(c.func, ast.Attribute) and c.func.attr in ("extend", "append") and unparse(c.func.value) == "work"]
-            if not body_calls:
-                continue
-            arg = unparse(body_calls[0].args[0])
-            if "typ is tuple" in txt and "callable" in txt:
-                ext["task"] = arg
-            elif txt == "typ is list":
-                ext["list"] = arg
-            elif txt == "typ is dict":
-                ext["dict"] = arg
-            elif "isinstance(w, GraphNode)" in txt:
-                ext["GraphNode"] = arg
-            elif "isinstance(w, TaskRef)" in txt:
-                ext["TaskRef"] = arg
-            else:
-                ext[txt] = arg
-    ctx.count("extractor_kinds", len(ext))
-    ctx.floor("extractor_kinds", 4, "container kinds keys_in_tasks descends into")
+    ext = extractor_kinds(ctx, kit)
     # ---------------- converter kinds
     task_if = [n for n in conv.body if isinstance(n, ast.If) and "callable(task[0])" in unparse(n.test)]
     if not task_if:
@@ -270,6 +291,8 @@ VARIANTS = [
     (TS, "            if task in all_keys:\n", "            if True:\n", "DOM.key-reference"),
     (TS, "        elif not isinstance(t, GraphNode):\n            t = DataNode(k, t)", "        elif not isinstance(t, GraphNode):\n            t = t", "TYPED.convert-graph.wrap"),
     (TS, "            parsed_args = tuple(convert_legacy_task(None, t, all_keys) for t in task)", "            parsed_args = tuple(task)", "SIB.extract-convert"),
+    (CORE, "            elif typ is list:\n                work.extend(w)\n            elif typ is dict:\n                work.extend(w.values())", "            elif typ is list or typ is dict:\n                work.extend(w)", "SIB.extract.projection"),
+    (CORE, "                work.extend(w[1:])", "                work.extend(w[2:])", "SIB.extract.projection"),
 ]
 
 
